@@ -139,6 +139,7 @@ Definition ok_label (c : config) (c0 : nat) (s : state) (l : label) : Prop :=
   | LRunCall i | LStopRet i | LReloadRet i =>
     stateable (spec c i) = true -> smap_at s i = Some (cur_at s i)
   | LStmExit => False
+  | LSdWgDone => False   (* Shutdown's final stores after its wait are silent (repo 4585550); the clause is about the running phase *)
   | LSubUnreg c1 => c1 <> c0
   | _ => True
   end.
